@@ -619,6 +619,20 @@ def b_isinstance(ex, st, args, kwargs, node):
     yield VBool(any(_isinst(v, ty) for ty in types_)), st
 
 
+def b_issubclass(ex, st, args, kwargs, node):
+    def ty(x):
+        if isinstance(x, VConst):
+            return x.obj
+        nm = getattr(x, "name", None)
+        m = {"str": str, "int": int, "bool": bool, "tuple": tuple, "list": list, "type": type}
+        if nm in m:
+            return m[nm]
+        raise Unsupported(f"issubclass with {x!r}")
+    c = ty(args[0])
+    t = tuple(ty(x) for x in args[1].items) if isinstance(args[1], VTuple) else ty(args[1])
+    yield VBool(issubclass(c, t)), st
+
+
 def _isinst(v, ty):
     if isinstance(v, VStr):
         return issubclass(str if v.kind == "str" else bytes, ty)
@@ -655,6 +669,12 @@ def b_type(ex, st, args, kwargs, node):
         yield VConst(type(v.obj)), st
     elif isinstance(v, VObj):
         yield VConst(ex.class_object(v.cls)), st
+    elif isinstance(v, VTuple):
+        yield VConst(tuple), st
+    elif isinstance(v, VList):
+        yield VConst(list), st
+    elif isinstance(v, VDict):
+        yield VConst(dict), st
     else:
         raise Unsupported(f"type of {v!r}")
 
@@ -921,6 +941,7 @@ def install(ex):
     add(builtins.bool, "bool", b_bool)
     add(builtins.ord, "ord", b_ord)
     add(builtins.isinstance, "isinstance", b_isinstance)
+    add(builtins.issubclass, "issubclass", b_issubclass)
     add(builtins.type, "type", b_type)
     add(builtins.tuple, "tuple", b_tuple)
     add(builtins.list, "list", b_list)
@@ -942,6 +963,10 @@ def install(ex):
         from contracts import spec_quote as _sq
         add(_sq.config_of, "spec.config_of", p_config_of)
         add(_sq.code_at, "spec.code_at", p_code_at)
+        add(_sq.quoter_name, "spec.quoter_name",
+            lambda ex, st, args, kwargs, node: iter([(lit(_sq.quoter_name(args[0].obj)), st)]))
+        add(_sq.requoter_of, "spec.requoter_of",
+            lambda ex, st, args, kwargs, node: iter([(VConst(_sq.requoter_of(args[0].obj)), st)]))
         add(_sq.component_alphabet, "spec.component_alphabet",
             lambda ex, st, args, kwargs, node: iter([(ex.wrap(_sq.component_alphabet(args[0].obj)), st)]))
     except ImportError:
